@@ -19,6 +19,13 @@
                     Err(NoResults{errors}) if !did_emit, else None
      PollNoService  streams = None: closed := true, yield Err(NoServiceConfigured)
      PollClosed     closed: yield None
+     DropStream     the consumer drops the stream before its end: every service stream still
+                    held is dropped with it ("once the returned stream is dropped, the service
+                    should stop any pending work")
+   `released` is the set of services whose result stream has been dropped by the merged
+   stream (the harness observes it through a Drop guard inside each scripted stream): a
+   stream is dropped only after it is exhausted or when the consumer drops the whole stream,
+   and at the end nothing is held any more.
    `out` is the sequence of everything `poll_next` returned, which is what the harness
    observes on the real stream (items and errors are labelled <<service, index>>). *)
 EXTENDS Naturals, Sequences, FiniteSets, TLC, Json
@@ -26,6 +33,7 @@ EXTENDS Naturals, Sequences, FiniteSets, TLC, Json
 CONSTANTS MaxSvcs,     \* at most this many services configured
           MaxLen,      \* scripts have at most this many outputs
           ExtraPolls,  \* how often the stream is polled after it ended
+          AllowDrop,   \* the consumer may drop the stream early (DropStream)
           EarlyTerminal \* FALSE: as documented; TRUE: a (wrong) design that also reports NoResults when items were yielded
                         \* (used only to show that the invariants bite)
 
@@ -34,9 +42,10 @@ VARIABLES svcs,      \* Seq of scripts: [decl: BOOLEAN, outs: Seq({"item","err"}
           pos,       \* per service: number of outputs already yielded
           errors,    \* buffered errors (labels)
           didEmit, closed,
-          out,       \* Seq of yields: [k: "item"|"err"|"noresults"|"noservice"|"end", s, i, errs]
-          extra      \* polls after the end so far
-vars == <<svcs, mode, pos, errors, didEmit, closed, out, extra>>
+          out,       \* Seq of yields: [k: "item"|"err"|"noresults"|"noservice"|"end"|"dropped", s, i, errs]
+          extra,     \* polls after the end so far
+          released   \* services whose result stream has been dropped
+vars == <<svcs, mode, pos, errors, didEmit, closed, out, extra, released>>
 
 Outs == UNION { [1..n -> {"item", "err"}] : n \in 0..MaxLen }
 Scripts == { [decl |-> TRUE, outs |-> <<>>] } \cup { [decl |-> FALSE, outs |-> o] : o \in Outs }
@@ -45,29 +54,36 @@ Configs == UNION { [1..n -> Scripts] : n \in 0..MaxSvcs }
 Y(k, s, i, errs) == [k |-> k, s |-> s, i |-> i, errs |-> errs]
 
 Init == /\ svcs \in Configs /\ mode = "init" /\ pos = [s \in 1..Len(svcs) |-> 0]
-        /\ errors = <<>> /\ didEmit = FALSE /\ closed = FALSE /\ out = <<>> /\ extra = 0
+        /\ errors = <<>> /\ didEmit = FALSE /\ closed = FALSE /\ out = <<>> /\ extra = 0 /\ released = {}
 
 Live == { s \in 1..Len(svcs) : ~svcs[s].decl }
 HasNext(s, kind) == s \in Live /\ pos[s] < Len(svcs[s].outs) /\ svcs[s].outs[pos[s] + 1] = kind
 
 Resolve == /\ mode = "init"
            /\ mode' = IF Len(svcs) = 0 THEN "none" ELSE "merge"
-           /\ UNCHANGED <<svcs, pos, errors, didEmit, closed, out, extra>>
+           /\ UNCHANGED <<svcs, pos, errors, didEmit, closed, out, extra, released>>
+
+\* a poll drops some of the streams that are already exhausted (MergeBounded removes a finished
+\* stream when it polls it again; which ones a given poll reaches is up to its ready queue)
+Exhausted == { s \in Live : pos[s] = Len(svcs[s].outs) }
+ReleaseSome == \E R \in SUBSET Exhausted : released' = released \cup R
 
 PollItem(s) == /\ mode = "merge" /\ ~closed /\ HasNext(s, "item")
                /\ pos' = [pos EXCEPT ![s] = @ + 1] /\ didEmit' = TRUE
                /\ out' = Append(out, Y("item", s, pos[s] + 1, <<>>))
+               /\ ReleaseSome
                /\ UNCHANGED <<svcs, mode, errors, closed, extra>>
 
 PollErr(s) == /\ mode = "merge" /\ ~closed /\ HasNext(s, "err")
               /\ pos' = [pos EXCEPT ![s] = @ + 1]
               /\ errors' = Append(errors, <<s, pos[s] + 1>>)
               /\ out' = Append(out, Y("err", s, pos[s] + 1, <<>>))
+              /\ ReleaseSome
               /\ UNCHANGED <<svcs, mode, didEmit, closed, extra>>
 
 PollEnd == /\ mode = "merge" /\ ~closed
            /\ \A s \in Live : pos[s] = Len(svcs[s].outs)
-           /\ closed' = TRUE
+           /\ closed' = TRUE /\ released' = Live
            /\ IF ~didEmit \/ EarlyTerminal
                 THEN out' = Append(out, Y("noresults", 0, 0, errors)) /\ errors' = <<>>
                 ELSE out' = Append(out, Y("end", 0, 0, <<>>)) /\ UNCHANGED errors
@@ -75,14 +91,19 @@ PollEnd == /\ mode = "merge" /\ ~closed
 
 PollNoService == /\ mode = "none" /\ ~closed /\ closed' = TRUE
                  /\ out' = Append(out, Y("noservice", 0, 0, <<>>))
-                 /\ UNCHANGED <<svcs, mode, pos, errors, didEmit, extra>>
+                 /\ UNCHANGED <<svcs, mode, pos, errors, didEmit, extra, released>>
 
 PollClosed == /\ closed /\ extra < ExtraPolls /\ extra' = extra + 1
               /\ out' = Append(out, Y("end", 0, 0, <<>>))
-              /\ UNCHANGED <<svcs, mode, pos, errors, didEmit, closed>>
+              /\ UNCHANGED <<svcs, mode, pos, errors, didEmit, closed, released>>
+
+DropStream == /\ AllowDrop /\ mode = "merge" /\ ~closed
+              /\ closed' = TRUE /\ released' = Live /\ extra' = ExtraPolls
+              /\ out' = Append(out, Y("dropped", 0, 0, <<>>))
+              /\ UNCHANGED <<svcs, mode, pos, errors, didEmit>>
 
 Next == Resolve \/ (\E s \in 1..MaxSvcs : PollItem(s)) \/ (\E s \in 1..MaxSvcs : PollErr(s))
-        \/ PollEnd \/ PollNoService \/ PollClosed
+        \/ PollEnd \/ PollNoService \/ PollClosed \/ DropStream
 Spec == Init /\ [][Next]_vars
 
 ---------------------------------------------------------------------------
@@ -91,20 +112,21 @@ IsTerminal(y) == y.k \in {"noresults", "noservice"}
 Yielded(kind) == { <<out[j].s, out[j].i>> : j \in { j \in 1..Len(out) : out[j].k = kind } }
 Produced(kind) == { <<s, i>> \in Live \X (1..MaxLen) : i <= Len(svcs[s].outs) /\ svcs[s].outs[i] = kind }
 \* position of the yield with which the stream ended (0 while it has not)
+Dropped == \E j \in 1..Len(out) : out[j].k = "dropped"
 EndAt == IF \E j \in 1..Len(out) : out[j].k \in {"noresults", "noservice", "end"}
            THEN CHOOSE j \in 1..Len(out) : out[j].k \in {"noresults", "noservice", "end"}
                                            /\ \A h \in 1..(j - 1) : out[h].k \in {"item", "err"}
            ELSE 0
 
 \* every item and every per-service error produced is yielded (exactly once, in the service's order) before the end
-AllYielded == closed => /\ Yielded("item") = Produced("item") /\ Yielded("err") = Produced("err")
+AllYielded == closed /\ ~Dropped => /\ Yielded("item") = Produced("item") /\ Yielded("err") = Produced("err")
                         /\ Cardinality({ j \in 1..Len(out) : out[j].k \in {"item", "err"} })
                              = Cardinality(Produced("item")) + Cardinality(Produced("err"))
 PerServiceOrder == \A a, b \in 1..Len(out) : (a < b /\ out[a].k \in {"item", "err"} /\ out[b].k \in {"item", "err"}
                                                /\ out[a].s = out[b].s) => out[a].i < out[b].i
 \* the end: a single no-results failure carrying all errors exactly when no item was produced,
 \* a single no-services failure exactly when no service is configured, otherwise a plain end
-TerminalRule == closed =>
+TerminalRule == closed /\ ~Dropped =>
    LET e == out[EndAt] IN
    /\ EndAt # 0
    /\ (e.k = "noservice") <=> (Len(svcs) = 0)
@@ -121,7 +143,13 @@ NothingAfterEnd == EndAt # 0 => \A j \in (EndAt + 1)..Len(out) : out[j].k = "end
 OneTerminal == Cardinality({ j \in 1..Len(out) : IsTerminal(out[j]) }) <= 1
 \* before the end only items and errors are yielded
 NoEarlyEnd == ~closed => \A j \in 1..Len(out) : out[j].k \in {"item", "err"}
+\* (growth beyond C29) resources: a service stream is dropped only once it is exhausted, unless the
+\* consumer dropped the whole stream; when the stream has ended or was dropped, none is held
+ReleasedOnlyWhenDone == ~Dropped => \A s \in released : pos[s] = Len(svcs[s].outs)
+AllReleasedAtEnd == closed /\ mode = "merge" => released = Live
 
 Done == closed /\ extra = ExtraPolls
-Emit == Done => PrintT(<<"REPLAY", ToJson([svcs |-> svcs, out |-> out])>>)
+\* the history of partial releases is not part of a behaviour's identity
+View == <<svcs, mode, pos, errors, didEmit, closed, out, extra, IF closed THEN released ELSE {}>>
+Emit == Done => PrintT(<<"REPLAY", ToJson([svcs |-> svcs, out |-> out, released |-> released])>>)
 =============================================================================
